@@ -700,8 +700,15 @@ class RequestHandler:
             # change the timing of the exception (to the generation of the Set-Cookie header in
             # flush()). We may want to add a call to self._new_cookie.output() at the end of this
             # method to ensure that exceptions are raised when they will be most useful.
+            #
+            # The legacy keyword arguments may contain spaces, but not at either end: every
+            # parser drops those, so the attribute would not arrive as it was given.
             if isinstance(attr_value, str) and re.search(
-                r"[\x00-\x1f\x3b\x7f]" if attr_name in kwargs else r"[\x00-\x20\x3b\x7f]",
+                (
+                    r"[\x00-\x1f\x3b\x7f]|\A | \Z"
+                    if attr_name in kwargs
+                    else r"[\x00-\x20\x3b\x7f]"
+                ),
                 attr_value,
             ):
                 raise http.cookies.CookieError(
